@@ -23,12 +23,13 @@ RULE = ('two threads race to create their first (in-memory) store under a contro
         'guard region (line events up to and including the assignment of the owner) is '
         'discovered by a calibration run and ALL C(2k,k) interleavings of the two guard '
         'regions are executed (exhaustive over that space), plus random schedule words over '
-        'the whole constructor, an untraced barrier-start stress run and the sequential '
+        'the whole constructor, a bytecode-level sweep (thread A stopped after its i-th instruction of the constructor for every i in the guard region while B runs), an untraced barrier-start stress run and the sequential '
         'orders (second thread after creation / after close / after failing opens by the owner / after the owning thread has terminated); oracle: exactly one thread '
         'succeeds and a non-owner is always refused; a class is an outcome per schedule '
         'prefix shape')
 ASSUMPTIONS = [
-    'line-level (statement-start) interleavings, not bytecode-level',
+    'full interleaving enumeration is line-level (statement start); bytecode level is covered '
+    'for schedules with a single pre-emption of either thread inside the guard region',
     'a thread that does not reach its next line within 50 ms is treated as blocked on a '
     'lock and its turn passes on (only changes which interleaving is run)',
     'the class-level owner record is reset between schedules inside this process; the '
@@ -63,7 +64,7 @@ def required(tier):
                         'sequential:other-thread-after-owner-thread-exited:refused',
                         'guard-interleaving:one-ok-one-refused'],
             'counters': {'guard_interleavings_run': 1, 'random_schedules_run': 100,
-                         'stress_rounds': 100},
+                         'stress_rounds': 100, 'instruction_preemption_points_run': 10},
             'evaluations': 100}
 
 
@@ -201,6 +202,9 @@ def run_shard(spec, rec):
     if 'only' not in spec:
         sequential(Store, rec, case0)
 
+    if str(spec.get('only', '')).startswith('instr-'):
+        instruction_sweep(Store, rec, case0, spec)
+        return
     sch = Scheduler(Store)
     try:
         # ---- calibration: one thread alone ----------------------------------------------
@@ -309,6 +313,121 @@ def run_shard(spec, rec):
                 rec.violation('unexpected outcome in stress race', {'outcomes': out}, case0)
     finally:
         sys.setswitchinterval(old)
+        Store.active_in_thread = None
+    instruction_sweep(Store, rec, case0, spec)
+
+
+def instruction_sweep(Store, rec, case0, spec):
+    """Bytecode-level pre-emption: thread A is stopped after its i-th executed instruction of
+    the constructor, thread B then runs its whole attempt (unless it blocks on a lock A
+    holds - then A is let go), then A resumes.  Every i up to the end of A's guard region is
+    run, with either thread as the pre-empted one: exhaustive over schedules with ONE
+    context switch inside a source line, which line-level scheduling cannot produce."""
+    mon = sys.monitoring
+    TOOL2 = 3
+    code = Store.__init__.__code__
+    tls = threading.local()
+    st = {'target': None, 'count': 0, 'reached': threading.Event(),
+          'resume': threading.Event(), 'owner_set_at': None}
+
+    def on_instr(c, offset):
+        if getattr(tls, 'name', None) != 'A':
+            return
+        st['count'] += 1
+        if st['owner_set_at'] is None and Store.active_in_thread is not None:
+            st['owner_set_at'] = st['count']
+        if st['target'] is not None and st['count'] == st['target']:
+            st['reached'].set()
+            st['resume'].wait(5)
+    try:
+        mon.use_tool_id(TOOL2, 'aeic-verif-instr')
+    except ValueError:
+        mon.free_tool_id(TOOL2)
+        mon.use_tool_id(TOOL2, 'aeic-verif-instr')
+    mon.register_callback(TOOL2, mon.events.INSTRUCTION, on_instr)
+    mon.set_local_events(TOOL2, code, mon.events.INSTRUCTION)
+    try:
+        def attempt(name, out, stores, keep):
+            tls.name = name
+            try:
+                stores.append(Store.create())
+                out[name] = 'ok'
+            except RuntimeError:
+                out[name] = 'refused'
+            except Exception as e:  # noqa: BLE001
+                out[name] = f'error:{type(e).__name__}'
+            finally:
+                tls.name = None
+            keep.wait(10)
+
+        def run(target):
+            Store.active_in_thread = None
+            st.update(target=target, count=0, owner_set_at=None)
+            st['reached'].clear()
+            st['resume'].clear()
+            out, stores, keep = {}, [], threading.Event()
+            ta = threading.Thread(target=attempt, args=('A', out, stores, keep), daemon=True)
+            tb = threading.Thread(target=attempt, args=('B', out, stores, keep), daemon=True)
+            ta.start()
+            stopped = st['reached'].wait(2) if target is not None else False
+            if target is None:
+                while 'A' not in out and ta.is_alive():
+                    time.sleep(0.0005)
+            tb.start()
+            t0 = time.time()
+            while 'B' not in out and time.time() - t0 < 0.05:     # B blocked on A's lock?
+                time.sleep(0.0005)
+            b_blocked = 'B' not in out
+            st['resume'].set()
+            t0 = time.time()
+            while len(out) < 2 and time.time() - t0 < 10:
+                time.sleep(0.0005)
+            keep.set()
+            ta.join(10)
+            tb.join(10)
+            for s_ in stores:
+                try:
+                    s_.close()
+                except Exception:  # noqa: BLE001
+                    pass
+            return out, stopped, b_blocked, st['count'], st['owner_set_at']
+
+        out, _, _, n_instr, owner_at = run(None)            # calibration: A alone first
+        if owner_at is None or n_instr < 5:
+            rec.inconc(f'instruction-level calibration failed (instructions={n_instr}, '
+                       f'owner set at {owner_at})')
+            return
+        rec.count('guard_region_instructions', owner_at)
+        last = min(n_instr, owner_at + 6)
+        for i in range(1, last + 1):
+            if 'only' in spec:
+                if f'instr-{i}' != spec['only']:
+                    continue
+            elif i % spec['of'] != spec['part']:
+                continue
+            out, stopped, b_blocked, _, _ = run(i)
+            rec.ev()
+            rec.count('instruction_preemption_points_run')
+            vals = sorted(out.values())
+            case = {**case0, 'kind': 'instruction-preemption', 'k': f'instr-{i}'}
+            if len(out) < 2:
+                rec.inconc(f'instruction pre-emption at {i}: a thread did not finish')
+            elif vals == ['ok', 'refused']:
+                rec.cls('instruction-preemption:one-ok-one-refused')
+                if b_blocked:
+                    rec.cls('instruction-preemption:second-thread-waited-for-the-lock')
+            elif vals == ['ok', 'ok']:
+                rec.violation('both racing threads created a store',
+                              {'kind': 'thread A pre-empted after its i-th bytecode instruction '
+                                       'of the constructor, B ran meanwhile', 'i': i,
+                               'owner_assigned_at_instruction': owner_at, 'outcomes': out}, case)
+            else:
+                rec.violation('unexpected outcome in the instruction-level race',
+                              {'i': i, 'outcomes': out}, case)
+    finally:
+        mon.set_local_events(TOOL2, code, 0)
+        mon.register_callback(TOOL2, mon.events.INSTRUCTION, None)
+        mon.free_tool_id(TOOL2)
         Store.active_in_thread = None
 
 
